@@ -29,9 +29,3 @@ var trustedBase = []string{
 	"the frozen rule tables in /verif/checker/rules (written from the property statements, reviewed against the code)",
 }
 
-// Thorough runs the extra thorough-tier work of a property.
-func Thorough(c *core.Ctx, r Property, repo string) {
-	if r.ThoroughRun != nil {
-		r.ThoroughRun(c, repo)
-	}
-}
